@@ -218,7 +218,11 @@ func projectColumns(selectList sql.SelectList, qfields storage.Fields, rows []*s
 			case sql.Average:
 				// set initial value used for subsequent aggregation step
 				idx := lookup[elem.ValueExpression.(sql.ColumnReference)]
-				newVals = append(newVals, row.Vals[idx].(int64))
+				val, isInt := row.Vals[idx].(int64)
+				if !isInt {
+					return nil, fmt.Errorf("%w: avg() needs integer values, got %v", ErrIncompatTypeCompare, row.Vals[idx])
+				}
+				newVals = append(newVals, val)
 			case sql.Count:
 				// set initial value used for subsequent aggregation step
 				count := int64(0)
@@ -442,6 +446,25 @@ func sortColumns(ssl []sql.SortSpecification, qfields storage.Fields, rows []*st
 			return err
 		}
 		sortIdxs = append(sortIdxs, idx)
+	}
+
+	// the comparison below needs two values of the same type: reject sort
+	// columns that hold NULLs or values of different types
+	for _, fieldIdx := range sortIdxs {
+		for _, row := range rows {
+			var comparable bool
+			switch row.Vals[fieldIdx].(type) {
+			case int64:
+				_, comparable = rows[0].Vals[fieldIdx].(int64)
+			case string:
+				_, comparable = rows[0].Vals[fieldIdx].(string)
+			case bool:
+				_, comparable = rows[0].Vals[fieldIdx].(bool)
+			}
+			if !comparable {
+				return fmt.Errorf("%w: cannot sort by a column that holds %v and %v", ErrIncompatTypeCompare, rows[0].Vals[fieldIdx], row.Vals[fieldIdx])
+			}
+		}
 	}
 
 	sort.Slice(rows, func(i, j int) bool {
